@@ -158,6 +158,20 @@ def h_lazy_operands(ctx):
             ctx.check(f"{label}-evaluates-in-the-context-of-the-object", got == want)
         except NameError as e:
             ctx.check(f"{label}-evaluates-in-the-context-of-the-object", False, error="NameError")
+    # container literals holding a random and a lazy element keep their Python type and contents
+    import collections
+
+    from scenic.core.distributions import toDistribution
+
+    Pair = collections.namedtuple("Pair", ["first", "second"])
+    containers = {"list": [X, lazy], "tuple": (X, lazy), "namedtuple": Pair(X, lazy)}
+    for label, lit in containers.items():
+        node = toDistribution(lit)
+        ev = valueInContext(node, context)
+        sample = Samplable.sampleAll([ev])
+        got = sample[ev]
+        ctx.check(f"{label}-literal-with-lazy-element-keeps-its-type", type(got) is type(lit), got=type(got).__name__)
+        ctx.check(f"{label}-literal-with-lazy-element-keeps-its-contents", E.sym_and(len(got) == 2, got[0] == xv, got[1] == scale * 2))
 
 
 # ------------------------------------------------------------------ (c) support intervals
